@@ -11,7 +11,8 @@ CHECKS = {
          "objects per programme variant, sampled ones for three objects, call-granularity histories) is replayed with one real thread "
          "per DDLParser object through guarded yield points and each run() is compared with the object's solo result; the library's "
          "recorded events from those replays and from free-running pre-empted threads are validated by TLC against the contract "
-         "(spec/TraceLifecycle.tla).",
+         "(spec/TraceLifecycle.tla)."
+         ' Every ordered pair of seven objects differing in run() arguments / debug flag in three call orders, and ordered pairs of output modes on a dialect-rich script, each in its own interpreter, must give the solo results.',
     note="Schedules are explored at statement granularity (yield points), not bytecode granularity; solo oracle computed in a "
          "throw-away process; TLC, PLY, CPython trusted.",
     design="DESIGN.md 3.1, 4 (C15)", technique=TECH + " (Lifecycle.tla, TraceLifecycle.tla)"),
@@ -22,7 +23,8 @@ CHECKS = {
          "on the real library over the regression corpus (harvested from the working tree's tests) and 12 state-leaving scripts: "
          "each run must equal the fresh-object run (computed in another process), results already returned must not change, "
          "arguments and the working directory must be untouched; the same inputs are parsed in fresh interpreters under several "
-         "PYTHONHASHSEEDs (json_dump strings compared); two-object histories are trace-validated against TraceLifecycle.tla.",
+         "PYTHONHASHSEEDs (json_dump strings compared); two-object histories are trace-validated against TraceLifecycle.tla."
+         ' spec/System.tla with MaxRuns=2 (run() twice end to end, silent and raising, flat and grouped; invariant Repeat, negative control rerun_accumulates) is model-checked and replayed; generated TableFold statements are included in the hash-seed comparison.',
     note="Inputs are the corpus plus hand-listed state-leaving scripts, not all DDL; fresh-object oracle from a throw-away process; "
          "TLC, PLY, CPython trusted.",
     design="DESIGN.md 3.1, 4 (C14)", technique=TECH + " (Lifecycle.tla, TraceLifecycle.tla)"),
@@ -33,7 +35,8 @@ CHECKS = {
          "variants. Exported behaviours are replayed on a scratch copy of the working tree's package: faults are applied to its "
          "parsetab.py, parsers are constructed in real fresh interpreters, and each must reproduce the valid-cache results on "
          "corpus inputs. The Build step also compares a signature-matching table file with a fresh in-memory generation "
-         "(actions, gotos, productions).",
+         "(actions, gotos, productions)."
+         ' The table file as SHIPPED (committed / before first use) with a matching signature must be loaded without complaint, left untouched by a build, and hold the productions (rule, length, handler) of a fresh generation.',
     note="PLY's generation algorithm is trusted (cached vs fresh output compared); stale cache is a crafted file (older signature, "
          "tables lacking ALTER/INDEX/SEQUENCE actions); quick tier replays a stratified sample of behaviours.",
     design="DESIGN.md 3.1, 4 (C20)", technique=TECH + " (ParseTables.tla)"),
@@ -53,9 +56,10 @@ CHECKS = {
          "with ALTER / CREATE INDEX results interleaved. Every state of the generation configuration is rendered (entity forms and "
          "comments by seed) and parsed flat and grouped by the real library in several output modes (all 15 in the thorough tier): the "
          "grouped result must be exactly the regrouping TLC computed (bucket -> positions in the flat list), entity dicts unchanged, "
-         "always-present buckets present, comments gathered.",
+         "always-present buckets present, comments gathered."
+         " spec/System.tla is model-checked and replayed grouped and flat over every script of <=3 statements (GroupLossless; negative control group_drops_markerless); hand scripts outside the generator's kinds (DROP TABLE, repeated entities, empty input) must regroup losslessly.",
     note="Entity forms per kind from a small pool; <=4 entities per script replayed; TLC, PLY, CPython trusted.",
-    design="DESIGN.md 3.6, 4 (C13)", technique=TECH + " (Registry.tla)"),
+    design="DESIGN.md 3.6, 4 (C13)", technique=TECH + " (Registry.tla, System.tla)"),
  "C01": dict(
     text="TLC model-checks ColumnsExact / AppendOnly (with PKExact, UniqueFlags, ShapeOK) of spec/TableFold.tla - the p_defcolumn "
          "fold, the table production and BaseData.__post_init__ transcribed, against the declared-columns contract - over every order "
@@ -142,7 +146,8 @@ CHECKS = {
          "views, queries, DML, GRANT, GO, SET, DROP; 1-3 lines each), and must refute them on defective variants. Every complete "
          "behaviour is rendered (with and without a final line break) and parsed by the real library: the result must be the in-order "
          "concatenation of what TLC lists for each statement alone (ALTER merged into its table). Corpus scripts made of ;-terminated "
-         "CREATE statements must equal the concatenation of their statements parsed alone (thorough: also reversed).",
+         "CREATE statements must equal the concatenation of their statements parsed alone (thorough: also reversed)."
+         ' The end-to-end composition spec/System.tla (parse stage -> fold stage -> presentation) is model-checked over every script of <=3 statements of 15 kinds and every behaviour replayed (OutcomeOK, InOrder; negative control set_swallows_next).',
     note="Statement shapes are pool entries with distinct names; <=3-4 statements exhaustive; TLC, PLY, CPython trusted.",
     design="DESIGN.md 3.2, 4 (C03), Appendix A", technique=TECH + " (Assembler.tla, Registry.tla, Entities.tla)"),
  "C08": dict(
@@ -152,7 +157,8 @@ CHECKS = {
          "shapes, and must refute them on two defective scanners. Every complete behaviour is rendered (comment texts full of keywords, "
          "commas, parentheses, semicolons) and parsed by the real library: entities must be those of the comment-free statements, every "
          "reported comment item must be part of one source comment, in source order, and contain no code; what the grammar received is "
-         "compared with the model's submissions (drift channel). Deviations TLC tags from the source lines are KNOWN-FINDINGs.",
+         "compared with the model's submissions (drift channel). Deviations TLC tags from the source lines are KNOWN-FINDINGs."
+         ' Tables written without the terminating `;` (Assembler kind tablens, LeftPending chain) with comments between and after them, comment texts with unbalanced parentheses, comment-shaped lines inside block comments and the file entry point are covered.',
     note="Comment texts are quote-free pool entries; bounded scripts; TLC, PLY, CPython trusted.",
     design="DESIGN.md 3.2, 4 (C08), Appendix A", technique=TECH + " (Assembler.tla)"),
  "C16": dict(
@@ -161,7 +167,8 @@ CHECKS = {
          "the grammar. Each is parsed by the real library under silent=True and silent=False (x output modes): silent=True never raises and "
          "yields the listed entities; silent=False raises DDLParserError (a SimpleDDLParserException) exactly when TLC says so, and otherwise "
          "returns the identical result. Supported-only behaviours of the TableFold / Registry / Entities / Clauses generators must not raise "
-         "under silent=False; unknown output modes must raise SimpleDDLParserException naming the valid modes.",
+         "under silent=False; unknown output modes must raise SimpleDDLParserException naming the valid modes."
+         ' spec/System.tla (which exception wins: a rejected statement anywhere raises before an unknown ALTER target is folded; negative control fold_while_parsing) is model-checked and replayed under both settings; supported DDL (incl. every CREATE <kind> TABLE word) must not raise under silent=True either; recorded StartRun / ParseStmt / Apply / FinishRun event streams of the corpus are validated by TLC against spec/TraceSystem.tla (corrupted traces must be rejected).',
     note="The raising clause is judged for statements that reach the grammar (skip-word lines are skipped in both settings by design); "
          "TLC, PLY, CPython trusted.",
     design="DESIGN.md 4 (C16)", technique=TECH + " (Assembler.tla + generators of TableFold/Registry/Entities/Clauses)"),
